@@ -14,7 +14,7 @@ from .. import harness as H
 
 ID = "C07"
 LEVEL = "exploration"
-RULE = ("random single-variable queries (depth<=4, the whole C01 condition vocabulary) over a one-shot logging iterator of "
+RULE = ("random single-variable queries (depth<=4, the whole C01 condition vocabulary, and queries without any condition) over a one-shot logging iterator of "
         "4-8 objects, declared with let(T, it) or T(From(it)), possibly mixed with objects of another type (lazy type "
         "filter); histories of 2-5 rounds, each asking for a random number k of results (0..all+1) and then closing or "
         "exhausting the iterator; caching on and off. Non-trivial: some round stops before the end of the domain while "
@@ -59,19 +59,20 @@ def plan(tier, seed):
 
 def floors(tier):
     return {"distinct_nontrivial": 300, "cls:decl:let": 300, "cls:decl:from": 300, "cls:mixed_types": 200,
-            "cls:round:partial": 500, "cls:round:exhausted": 300, "cls:caching_off": 200, "pull_checks": 3000}
+            "cls:round:partial": 500, "cls:round:exhausted": 300, "cls:caching_off": 200, "pull_checks": 3000,
+            "cls:no_condition": 100}
 
 
 def cases(spec, ctx):
     for i in range(spec["n"]):
         rng = ctx.rng(spec["sub"], i)
         world = D.random_world(rng, np_=(4, 8), nq=(1, 2))
-        cond = C.gen_cond(rng, ["P"], rng.choice([0, 1, 2, 2, 3, 4]))
+        cond = C.gen_cond(rng, ["P"], rng.choice([0, 1, 2, 2, 3, 4])) if rng.random() > 0.12 else None
         n = len(world["P"])
         mixed = sorted(rng.sample(range(n + 1), rng.randint(1, 2))) if rng.random() < 0.4 else []
         rounds = [[rng.randint(0, n + 1), rng.choice(["close", "close", "drop", "exhaust"])] for _ in range(rng.randint(2, 5))]
         yield {"world": world, "cond": cond, "decl": rng.choice(["let", "from"]), "mixed": mixed, "rounds": rounds,
-               "caching": rng.random() < 0.7}
+               "caching": rng.random() < 0.7, "form": rng.choice(["entity", "entity", "direct"])}
 
 
 def check_case(case, ctx):
@@ -83,7 +84,9 @@ def check_case(case, ctx):
     items = list(ps)
     for pos in case["mixed"]:
         items.insert(pos, Other())
-    qual = [i for i, o in enumerate(items) if isinstance(o, D.P) and C.holds(case["cond"], (o,))]
+    cond = case["cond"]
+    qual = [i for i, o in enumerate(items) if isinstance(o, D.P) and (cond is None or C.holds(cond, (o,)))]
+    ctx.cls("cls:no_condition" if cond is None else "cls:with_condition")
     ctx.cls("cls:decl:" + case["decl"])
     ctx.cls("cls:caching_on" if case["caching"] else "cls:caching_off")
     if case["mixed"]:
@@ -93,7 +96,8 @@ def check_case(case, ctx):
     try:
         with symbolic_mode():
             x = let(D.P, li) if case["decl"] == "let" else D.P(From(li))
-            q = an(entity(x, C.build(case["cond"], [x], 0, True)))
+            conds = [] if cond is None else [C.build(cond, [x], 0, True)]
+            q = an(x, *conds) if case.get("form") == "direct" and conds else an(entity(x, *conds))
         if li.log:
             ctx.fail("PULLED_WHILE_BUILDING", {"log": list(li.log)})
             return
